@@ -248,6 +248,17 @@ pub fn run(ctx: &Ctx) -> i32 {
     run_group(ctx, &mut rep, &g, |_, seed, trace| late_originals_case(seed, trace));
     let g = Group { name: "recycle", cases: ctx.tier.pick(800, 40_000), budget_s: ctx.tier.pick(15.0, 150.0), exhaustive: false };
     run_group(ctx, &mut rep, &g, |_, seed, trace| recycle_case(seed, trace));
+    // data written before the handshake completes (0-RTT, across Retry and rejection): the C17
+    // worlds, where a byte the ledger never sees delivered, or sees twice, is a C01 failure too
+    let g = Group { name: "early-data", cases: ctx.tier.pick(1500, 100_000), budget_s: ctx.tier.pick(10.0, 120.0), exhaustive: false };
+    run_group(ctx, &mut rep, &g, |_, seed, trace| {
+        let mut out = super::c17::case(seed, Lane::Null, trace, None);
+        for v in out.viol.iter_mut().filter(|v| v.prop == "C17") {
+            v.prop = "C01";
+            v.msg = format!("[early data] {}", v.msg);
+        }
+        out
+    });
     #[cfg(feature = "real")]
     {
         let g = Group { name: "honest-real", cases: ctx.tier.pick(100, 4_000), budget_s: ctx.tier.pick(25.0, 150.0), exhaustive: false };
@@ -258,7 +269,7 @@ pub fn run(ctx: &Ctx) -> i32 {
         &rep,
         Finish {
             level: "exploration",
-            rule: "seeded random honest-peer worlds (1-2 clients, random transport configs, stream plans with random chunking / write vs write_chunks / finish / reset, ordered and unordered readers with max_length in {1,7,333,1200,MAX}, stops, key updates, window changes, rebinding; loss/dup/reorder/corruption/ECN-CE/MTU faults; random driver schedules) on the plaintext and rustls lanes. A case is non-trivial if at least one stream byte was delivered and verified; distinct = distinct coverage fingerprint (set of fault kinds fired x set of application/monitor counters touched x volume buckets x end state).".into(),
+            rule: "seeded random honest-peer worlds (1-2 clients, random transport configs, stream plans with random chunking / write vs write_chunks / finish / reset, ordered and unordered readers with max_length in {1,7,333,1200,MAX}, stops, key updates, window changes, rebinding; loss/dup/reorder/corruption/ECN-CE/MTU faults; random driver schedules) on the plaintext and rustls lanes. (early-data) the 0-RTT worlds of C17 under the same ledger. A case is non-trivial if at least one stream byte was delivered and verified; distinct = distinct coverage fingerprint (set of fault kinds fired x set of application/monitor counters touched x volume buckets x end state).".into(),
             assumptions: vec![
                 "payload bytes are a pure function of (connection pair, writer, stream id, offset), so every delivered byte identifies the write it came from".into(),
                 "null crypto lane replaces TLS by a keyed-hash session behind quinn's public crypto traits; the rustls lane runs the production path".into(),
